@@ -7,11 +7,11 @@ import re
 from hypothesis import strategies as st
 
 from vlib import gen
-from vlib.build import build
+from vlib.build import Flavour, GuidTree, GuidTypedTree, Person, build
 from vlib.core import Part
 from vlib.observe import shape, walk
 
-from nutree import AmbiguousMatchError, Node
+from nutree import AmbiguousMatchError, Node, Tree, TypedTree
 
 ID = "C09"
 LEVEL = "exploration"
@@ -24,13 +24,17 @@ RULE = (
     "predicates) x k in {None,1,2,3,100}: find_all/find_first/find compared with a direct re.fullmatch scan of the "
     "pre-order list; data / data_id lookups with limits on the index path (Tree) and scan path (Node); tree[key], "
     "key in tree, del tree[key] for every key kind (data, data_id, node_id, absent, ambiguous, Node, colliding "
-    "ints). Non-trivial: some query had more matches than its limit or addressed a clone group; distinct = distinct spec."
+    "ints). Non-trivial: some query had more matches than its limit or addressed a clone group; distinct = distinct spec. "
+    "Part callback-ids-typed repeats all of it on plain and typed trees whose data_ids come from a calc_data_id callback "
+    "or a Tree subclass (objects as data). Part query-mutate-query evaluates the same queries on ONE tree before a "
+    "generated mutation history (clones appear and disappear, nodes are re-keyed, moved, removed), after a generated "
+    "subset of its steps and at its end (non-trivial there: >= 2 evaluations, one of them with a clone group or a limit hit)."
 )
 ASSUMPTIONS = [
     "re.fullmatch of CPython is the trusted matcher",
     "a result limit truncates: exactly min(k, #matches) results are expected (ordered searches: the first k in pre-order; index/data lookups: any k distinct matches)",
     "find_first by data/data_id may return any member of the clone group (docstring: 'one arbitrary matching node')",
-    "data objects, data_ids and node_ids are truthy",
+    "the calc_data_id callback used here is total (objects without a guid fall back to hash), as a lookup key may be any object",
 ]
 
 LABELS = ["a", "b", "c", "a1", "b1", "ab", "A", "B1", 3, 7]
@@ -62,9 +66,34 @@ def call(fn, *a, **kw):
         return ("exc", e)
 
 
+def _guid_cb(tree, data):
+    """calc_data_id callback in the style of the user guide (objects carry their id), total on every key."""
+    g = getattr(data, "guid", None)
+    return g if g is not None else hash(data)
+
+
+def make_tree(case):
+    """(tree, id-function of the tree's documented data_id rule)."""
+    fln, typed = case.get("flavour", "str"), bool(case.get("typed"))
+    fl = Flavour(fln)
+    if fln == "obj_cb":
+        t = (TypedTree if typed else Tree)("T", calc_data_id=_guid_cb)
+    elif fln == "obj_sub":
+        t = (GuidTypedTree if typed else GuidTree)("T")
+    else:
+        t = (TypedTree if typed else Tree)("T")
+    tree, _nodes = build(case["spec"], flavour=fl, typed=typed, tree=t)
+    idf = (lambda x: x.guid if isinstance(x, Person) else hash(x)) if fln in ("obj_cb", "obj_sub") else hash
+    return tree, idf
+
+
 def run(case, rec):
-    spec = case["spec"]
-    tree, nodes = build(spec)
+    tree, idf = make_tree(case)
+    rec.cls("flavour=" + case.get("flavour", "str") + ("/typed" if case.get("typed") else ""))
+    check_queries(tree, rec, idf, rebuild=lambda: make_tree(case)[0])
+
+
+def check_queries(tree, rec, idf=hash, rebuild=None, nt=True):
     w = walk(tree)
     pre = w.pre
     ev = 0
@@ -190,7 +219,7 @@ def run(case, rec):
                 if r[0] == "exc" or (r[1] is None) != (not bgroup) or (r[1] is not None and not any(r[1] is g for g in bgroup)):
                     rec.fail("node.find_first(data_id)", [nm(start), repr(did), nm(r[1]) if r[0] == "ok" else repr(r[1])])
     for data in datas + ["absent-data", 31337]:
-        did = hash(data)
+        did = idf(data)
         group = [n for n in pre if n.data_id == did]
         for k in LIMITS:
             expect_subset("tree.find_all(data,k)" if k else "tree.find_all(data)", call(tree.find_all, data, max_results=k), group, k, [repr(data), k])
@@ -224,7 +253,7 @@ def run(case, rec):
         if isinstance(key, (int, str)):
             res = [n for n in pre if n.data_id == key]
         if not res:
-            res = [n for n in pre if n.data_id == hash(key)]
+            res = [n for n in pre if n.data_id == idf(key)]
         if not res:
             return ("KeyError", None)
         if len(res) > 1:
@@ -253,11 +282,11 @@ def run(case, rec):
         assert isinstance(pre[0], Node)
 
     # ---- 4. del tree[key] (on fresh trees) ------------------------------------------------------
-    if not rec.failed:
+    if not rec.failed and rebuild is not None:
         default_nids = {id(n) for n in pre if n.node_id == id(n)}
         for key in [k for k in keys if not (isinstance(k, int) and k in default_nids)][:10]:
             kind, exp = ref_getitem(key)
-            t2, nodes2 = build(spec)
+            t2 = rebuild()
             w2 = walk(t2)
             before = shape(t2)
             ev += 1
@@ -286,9 +315,11 @@ def run(case, rec):
                 elif shape(t2) != before:
                     rec.fail("del tree[key]:refused-but-changed", [repr(key)])
 
-    rec.nt(interesting)
+    if nt:
+        rec.nt(interesting)
     rec.cls("nodes=%d" % min(len(pre), 12))
     rec.evals += ev
+    return interesting
 
 
 def iter_shape(sh):
@@ -338,6 +369,37 @@ def hyp_cases(draw, tier):
     return {"spec": spec}
 
 
+@st.composite
+def flavour_cases(draw, tier):
+    """Trees whose data_id comes from a calc_data_id callback / a Tree subclass (objects as data), plain and typed."""
+    typed = draw(st.booleans())
+    spec = draw(gen.forest_specs(max_nodes=10, max_depth=4, max_width=4, min_nodes=1, alphabet=["a", "b", "c", "a1", "ab"],
+                                 opts=gen.node_opts(explicit_ids=True, kinds=typed)))
+    gen.fix_sibling_ids(spec, auto=lambda label: ("x", label))
+    return {"spec": spec, "typed": typed, "flavour": draw(st.sampled_from(["obj_cb", "obj_sub", "dc", "str"]))}
+
+
+def run_requery(case, rec):
+    """Search, mutate (clones appear / disappear, nodes are re-keyed and moved), search the same tree again."""
+    from vlib import requery
+
+    seen = []
+
+    def check(tree, rec, eng):
+        seen.append(check_queries(tree, rec, hash, rebuild=None, nt=False))
+
+    q = requery.run(case, rec, check)
+    rec.nt(bool(q and q >= 2 and any(seen)))
+
+
+def requery_cases(tier):
+    from vlib import requery
+
+    return requery.cases(max_ops=6, max_nodes=8, kinds=["add_node", "add_node", "add", "remove", "set_data", "rename", "move", "del", "copy_to"])
+
+
 PARTS = [
     Part("queries", run, strategy=lambda tier: hyp_cases(tier), n={"quick": 500, "thorough": 100000}),
+    Part("callback-ids-typed", run, strategy=lambda tier: flavour_cases(tier), n={"quick": 200, "thorough": 20000}),
+    Part("query-mutate-query", run_requery, strategy=requery_cases, n={"quick": 200, "thorough": 20000}),
 ]
